@@ -16,7 +16,11 @@ rm -rf $SC; git -C /repo worktree add -q --detach $SC HEAD || exit 1
 trap 'git -C /repo worktree remove --force '$SC' 2>/dev/null' EXIT
 cd $SC
 git apply "$PATCH" || { echo "SEED $ID$X: patch does not apply"; exit 1; }
-suite=$(go build ./... 2>&1 && go test -vet=off -count=1 ./... 2>&1 | grep -v "no test files" | grep -c -E "^(FAIL|---)" )
+# the repository's internal/hash distribution test is randomly flaky (per-process hash seed): up to 3 attempts
+for attempt in 1 2 3; do
+  suite=$(go build ./... 2>&1 && go test -vet=off -count=1 ./... 2>&1 | grep -v "no test files" | grep -c -E "^(FAIL|---)" )
+  [ "$suite" = "0" ] && break
+done
 RACE=""; grep -qi "race" $OUT/meta$X.txt 2>/dev/null && [ "$ID" = "C11" ] && RACE="-race"
 cp "$DEMO" zz_demo_test.go 2>/dev/null
 with=$(go test -vet=off $RACE -count=1 -run "TestSeeded$X" . 2>&1 | tail -3 | grep -c -E "^(FAIL|--- FAIL|panic)")
